@@ -134,6 +134,96 @@ def parse_arm(ctx, binp, extra_argvs):
     return real[len(uniq):]
 
 
+def binary_arm(ctx, binp, gen_events):
+    """pkg/cli/cli.go (process exit status, real OS/FS): the real fq binary on a few of the same command lines, compared with the in-process run."""
+    import subprocess
+    fq = os.path.join(ctx.build, 'bin', 'fq')
+    ctx.run(['go', 'build', '-o', fq, '.'], cwd=vlib.REPO, check=True, timeout=900)
+    fx = os.path.join(ctx.build, 'fx')
+    os.makedirs(fx, exist_ok=True)
+    ctx.run([binp, 'fixtures', fx], check=True, timeout=60)
+    chosen, seen = [], set()
+    for e in gen_events:
+        k = (e['fam'].split(':')[0], e['exit'], len(e['fidx']) > 1)
+        if k not in seen and 'nul' not in ''.join(e['argv']):
+            seen.add(k); chosen.append(e)
+    chosen = chosen[:60]
+    env = dict(os.environ); env.update(NO_COLOR='1', NO_DECODE_PROGRESS='1')
+    for e in chosen:
+        try:
+            p = subprocess.run([fq] + e['argv'], cwd=fx, env=env, stdin=open(os.path.join(fx, 'stdin_' + e['stdin']), 'rb'),
+                               stdout=subprocess.PIPE, stderr=subprocess.PIPE, timeout=60)
+        except subprocess.TimeoutExpired:
+            raise Inconclusive('fq binary timed out on %s' % e['argv'])
+        out = p.stdout.decode('utf-8', 'replace').replace('\x00', '<NUL>')
+        if p.returncode != e['exit']:
+            ctx.finding('cli.process_exit_differs_from_interp_main', 'fq %s: process exit %d, interp.Main exit class %d' % (e['argv'], p.returncode, e['exit']),
+                        dict(argv=e['argv'], stdin=e['stdin'], process_exit=p.returncode, inprocess_exit=e['exit']))
+        elif out != e['stdout']:
+            ctx.finding('cli.process_stdout_differs_from_interp_main', 'fq %s: process stdout %r, in-process %r' % (e['argv'], out[:80], e['stdout'][:80]),
+                        dict(argv=e['argv'], stdin=e['stdin'], process_stdout=out, inprocess_stdout=e['stdout']))
+    ctx.cov['real_binary_runs'] = len(chosen)
+    ctx.cov['evaluations'] += len(chosen)
+
+
+def jq_arm(ctx, cases):
+    """Validation of the as-required layer itself: where a reference jq is installed, the predicted (exit, stdout) of the jq-compatible
+    modes must be what jq does on the same command line (all-good newline-terminated inputs, flags jq knows, predicted exit 0 or 3)."""
+    import subprocess, shutil
+    jq = shutil.which('jq')
+    if not jq:
+        ctx.cov['reference_jq'] = 'not installed; spec not cross-checked against jq'
+        return
+    fx = os.path.join(ctx.build, 'fx')
+    known = {'null_input', 'slurp', 'string_input', 'raw_string', 'join_output', 'compact', 'arg', 'argjson', 'raw_file', 'expr_file'}
+    good = {'a.json', 'b.json', 'c.json', 'o.json', '<stdin>'}
+    n, bad = 0, []
+    for c in cases:
+        if c['st'] != 'ok' or c['exit'] not in (0, 3) or not set(c['inputs']) <= good or (not c['fidx'] and c['stdin'] not in 'ABC'):
+            continue
+        argv, ok = [], True
+        for t in c['toks']:
+            if t['k'] in ('dd', 'bad') or (t['k'] == 'flag' and (t['inl'] or not set(t['names']) <= known)):
+                ok = False
+            argv.append('--rawfile' if t['k'] == 'flag' and t['names'] == ['raw_file'] else ''.join(t['sym']))
+        if not ok:
+            continue
+        p = subprocess.run([jq] + argv, cwd=fx, stdin=open(os.path.join(fx, 'stdin_' + c['stdin']), 'rb'), stdout=subprocess.PIPE, stderr=subprocess.PIPE, timeout=30)
+        n += 1
+        if (p.returncode, p.stdout.decode('utf-8', 'replace')) != (c['exit'], c['out']):
+            bad.append('jq %s -> (%d, %r), spec (%d, %r)' % (argv, p.returncode, p.stdout[:60], c['exit'], c['out'][:60]))
+        if n >= 400:
+            break
+    ctx.cov['reference_jq'] = '%s: %d spec predictions compared, %d differ' % (subprocess.run([jq, '--version'], stdout=subprocess.PIPE, text=True).stdout.strip(), n, len(bad))
+    if bad:
+        raise Inconclusive('as-required layer disagrees with reference jq: %s' % bad[:3])
+
+
+def replay(ctx, path):
+    d = json.load(open(path))
+    case = d['case']
+    binp = ctx.go_build('c17')
+    evs = [case['event']] if 'event' in case else [case['a']['event'], case['b']['event']] if 'a' in case else None
+    if evs is None:
+        raise Inconclusive('replay file without a recorded event (real-binary comparison: re-run the check)')
+    cpath = os.path.join(ctx.build, 'replay_cases.ndjson')
+    vlib.write_ndjson(cpath, [dict(id=i, fam=e['fam'], group=e['group'], toks=e['toks'], fidx=e['fidx'], stdin=e['stdin'], solo=True) for i, e in enumerate(evs)])
+    epath = os.path.join(ctx.build, 'replay_events.ndjson')
+    ctx.run([binp, 'replay', cpath, epath], check=True, timeout=300)
+    new = vlib.read_ndjson(epath)
+    if 'a' in case:
+        a, b = new
+        if (a['exit'], a['stdout']) != (b['exit'], b['stdout']):
+            ctx.finding(d['sig'], 'replayed: fq %s -> (%d, %r) but fq %s -> (%d, %r)' % (a['argv'], a['exit'], a['stdout'][:80], b['argv'], b['exit'], b['stdout'][:80]), case)
+        return
+    tpath = os.path.join(ctx.build, 'replay_trace.ndjson')
+    vlib.write_ndjson(tpath, [strip(e) for e in new])
+    rej, _, _ = ctx.tv('TraceCLI', 'TraceCLI.cfg', tpath, name='tv_replay')
+    for line, sig in rej:
+        e = new[line - 1]
+        ctx.finding(sig, 'replayed: fq %s -> exit %d stdout %r' % (e['argv'], e['exit'], e['stdout'][:120]), case)
+
+
 def strip(e):
     return {k: e[k] for k in ('id', 'fam', 'group', 'toks', 'fidx', 'stdin', 'exit', 'stdout', 'solo')}
 
@@ -144,6 +234,7 @@ def run(ctx):
                        'distinct non-trivial = distinct (argv, stdin) command lines judged by TraceCLI that have at least one flag token and either '
                        '>= 2 input files or a failing input / argument error / non-zero exit')
     ctx.assumptions += [
+        'pkg/cli/cli.go Main calls os.Exit, so the bulk runs use interp.Main with the same 4-line error-to-exit mapping; <= 60 of the same command lines also run as a real fq process on a real directory',
         'virtual OS: stdout is not a terminal, NO_COLOR=1; in-memory FS where a directory opens but fails to read (EISDIR) as on a real OS',
         'fixture contents in harness/c17/main.go equal KindContent/RawFileContent of CLI.tla (a mismatch shows as rejected events)',
         'undecodable = probe finds no format (garbage text); -d FORMAT on it is excluded (documented partial decode, exit 0)',
@@ -162,7 +253,9 @@ def run(ctx):
     if len(cases) < 1500:
         raise Inconclusive('GEN(e2e) produced too few cases')
     cases.sort(key=lambda c: json.dumps([c['fam'], c['group'], c['argv'], c['stdin']]))
-    if not thorough:
+    if thorough:
+        cases = [c for c in cases if not (c['fam'] == 'loop' and len(c['fidx']) >= 4 and ctx.rng.random() > 0.4)]
+    else:
         # quick: loop family exhaustive for <= 2 inputs, seeded sample of the 3-input lists and of the law groups
         groups = sorted({c['group'] for c in cases if c['fam'].startswith('law:')})
         keepg = set(ctx.rng.sample(groups, min(len(groups), 16))) | {'negnum', 'dashfile', 'dashfile2', 'dashprog'}
@@ -196,7 +289,11 @@ def run(ctx):
     events = gen_events + rand_events
 
     # the real _args_parse on TLC's raw vectors and on every argv used above (predicted parsed options of the e2e cases)
-    real_parsed = parse_arm(ctx, binp, [c['argv'] for c in cases])
+    parse_problem = None
+    try:
+        real_parsed = parse_arm(ctx, binp, [c['argv'] for c in cases])
+    except Inconclusive as ex:      # reported at the end: the command lines below are judged first
+        parse_problem, real_parsed = str(ex), []
     pdrift = 0
     for c, r in zip(cases, real_parsed):
         if c['ist'] == 'ok' and not c['jqspell']:
@@ -216,7 +313,7 @@ def run(ctx):
     unjudged = [l for l in res.raw_printed if l.startswith('<<"UNJUDGED"')]
     if badtag:
         raise Inconclusive('%d events with tags that do not match their symbols, e.g. %s' % (len(badtag), badtag[0]))
-    if len(unjudged) > len(events) // 20:
+    if len(unjudged) > len(events) // 8:
         raise Inconclusive('%d of %d events outside the modelled universe' % (len(unjudged), len(events)))
     ctx.cov['traces_validated_against_impl'] += len(events)
     ctx.cov['evaluations'] += len(events)
@@ -232,7 +329,7 @@ def run(ctx):
         rejected[line - 1] = sig
         e = events[line - 1]
         ctx.finding(sig, 'fq %s (stdin %s) -> exit %d stdout %r' % (' '.join(map(repr, e['argv'])), e['stdin'], e['exit'], e['stdout'][:120]),
-                    dict(argv=e['argv'], stdin=e['stdin'], exit=e['exit'], stdout=e['stdout'], stderr=e.get('stderr', '')[:400], solo=e['solo'], fam=e['fam']))
+                    dict(argv=e['argv'], stdin=e['stdin'], exit=e['exit'], stdout=e['stdout'], stderr=e.get('stderr', '')[:400], event=strip(e)))
     if driftl:
         ctx.drift('transcription (ArgsParse / loop machine) disagrees with the requirement on %d recorded command lines' % len(driftl), len(driftl))
 
@@ -240,6 +337,9 @@ def run(ctx):
     for c, e in zip(cases, gen_events):
         if c['st'] in ('ok', 'argerr') and not c['jqspell'] and (c['exit'], c['out']) != (e['exit'], e['stdout']) and e['id'] not in rejected:
             raise Inconclusive('GEN prediction differs from the real run but TraceCLI accepted it: %s' % c['argv'])
+
+    binary_arm(ctx, binp, gen_events)
+    jq_arm(ctx, cases)
 
     # metamorphic laws as pairs of real runs: all renderings of one intent give the same exit code and stdout
     groups = collections.defaultdict(list)
@@ -257,7 +357,8 @@ def run(ctx):
             if (e['exit'], e['stdout']) != (b['exit'], b['stdout']):
                 ctx.finding('law.%s' % e['fam'].split(':', 1)[1],
                             'fq %s -> (%d, %r) but fq %s -> (%d, %r)' % (e['argv'], e['exit'], e['stdout'][:80], b['argv'], b['exit'], b['stdout'][:80]),
-                            dict(a=dict(argv=e['argv'], exit=e['exit'], stdout=e['stdout']), b=dict(argv=b['argv'], exit=b['exit'], stdout=b['stdout']), group=gname))
+                            dict(a=dict(argv=e['argv'], exit=e['exit'], stdout=e['stdout'], event=strip(e)),
+                                 b=dict(argv=b['argv'], exit=b['exit'], stdout=b['stdout'], event=strip(b)), group=gname))
     ctx.cov['law_pairs_compared'] = npairs
     ctx.cov['law_groups'] = len(groups)
 
@@ -286,3 +387,5 @@ def run(ctx):
     bad_solo['solo'][k]['stdout'] += 'x\n'
     bad_arg = copy.deepcopy(pick(lambda e: e['exit'] == 2 and not e['stdout'] and any(t['k'] == 'bad' for t in e['toks']))); bad_arg['exit'] = 0
     ctx.binding_demo('TraceCLI', 'TraceCLI.cfg', [ok0, bad_exit, ind, bad_out, bad_solo, bad_arg], [2, 4, 5, 6])
+    if parse_problem:
+        raise Inconclusive('real _args_parse could not be driven: ' + parse_problem)
